@@ -23,6 +23,11 @@ type Subscription struct {
 	// vars are the variable values of the subscription request. The
 	// selection set is evaluated with them for every event.
 	vars map[string]interface{}
+
+	// conType is the type of the events, the type of the subscription
+	// field. It is kept here and not on the field which belongs to the
+	// parsed request and can be resolved again.
+	conType Type
 }
 
 // NewSubscription creates a new subscription. It should be called in a
@@ -36,5 +41,5 @@ func NewSubscription(sub Subscriber, field *Field, args map[string]interface{}) 
 }
 
 func (sub *Subscription) prep(root *Root) {
-	sub.field.ConType = root.getFieldType(sub.field.ConType, sub.field.Name)
+	sub.conType = root.getFieldType(sub.field.ConType, sub.field.Name)
 }
